@@ -271,7 +271,7 @@ class Pda:
                 pos = spec["pos"]
                 if f["npos"] < len(pos) and isinstance(pos[f["npos"]], tuple) and not spec["optfirst"]:
                     if t in pos[f["npos"]][1]:
-                        node.pos.append(("tag", t))
+                        node.tags.append([t, None])
                         f["npos"] += 1
                         return
                     return self._die("BAD_TAG", name, t)
